@@ -37,7 +37,9 @@ for h in os.listdir(f"{V}/harmless"):
 htab = ["| refactoring | what it changes | checks that raised an alarm |", "|---|---|---|"]
 for r in hrows:
     m = hmeta.get(r[0], {})
-    htab.append(f"| `{r[0]}` | {m.get('summary', '')[:220]} | {r[1].strip() if len(r) > 1 else ''} |")
+    summ = m.get('summary', '').replace('|', '/').replace('\n', ' ')
+    if len(summ) > 170: summ = summ[:170] + '…'
+    htab.append(f"| `{r[0]}` | {summ} | {r[1].strip() if len(r) > 1 else ''} |")
 
 text = f"""## 10. Seeded changes and harmless refactorings: what the checks report
 
